@@ -505,6 +505,12 @@ int32 dtlsEncryptFragRecord(ssl_t *ssl, flightEncode_t *msg,
 
     encryptStart = out->end + ssl->recordHeadLen;
 
+#ifdef MATRIXSSL_VERIF
+    MATRIX_VERIF_EV(MXV_SEAL, ssl, msg->type, msg->hsMsg, msg->start,
+        ssl->hshakeHeadLen + msg->len +
+        (((ssl->flags & SSL_FLAGS_WRITE_SECURE) && (ssl->enBlockSize > 1)) ?
+        ssl->enBlockSize : 0));
+#endif
     updateHash = msg->start;
     if ((ssl->flags & SSL_FLAGS_WRITE_SECURE) && (ssl->enBlockSize > 1))
     {
